@@ -460,6 +460,20 @@ Proof.
   exists l. split; [exact E|]. intros f Hin. simpl. rewrite (Hall f). apply Q; exact Hin.
 Qed.
 
+Theorem load_sees_saved_all tb T :
+  t_frame_index_kept tb = true -> codec_ok tb T all_fields = true ->
+  forallb (fun f => existsb (field_eqb f) (t_load_assigned tb)) all_fields = true ->
+  forall d running, d_kind d = T -> (forall f, strict_dict T f (d_cont d f)) ->
+  exists loaded, from_dict tb (via_file tb (to_dict tb d)) = Some loaded /\
+                 forall f, d_cont (load_detector_effect tb running loaded) f = d_cont d f.
+Proof.
+  intros Hk Hok Hall d running Hd HP.
+  assert (Hall' : forall f, existsb (field_eqb f) (t_load_assigned tb) = true).
+  { intros f. rewrite forallb_forall in Hall. apply Hall. destruct f; simpl; auto 10. }
+  destruct (load_sees_saved tb T all_fields Hk Hok Hall' d running Hd HP) as [l [E Q]].
+  exists l. split; [exact E|]. intros f. apply Q. destruct f; simpl; auto 10.
+Qed.
+
 (* ---------------------------------------------------------------- load_detector *)
 Theorem load_replaces_iff tb :
   load_replaces tb <-> forallb (fun f => existsb (field_eqb f) (t_load_assigned tb)) all_fields = true.
